@@ -658,7 +658,7 @@ func runAll(tracePath, reportPath string) {
 		}
 	}
 	report = append(report, scenarioTimeouts(enc, 0))
-	for i, v := range []string{"none", "early", "idle", "handshaking", "mixed", "repeat", "handoff", "active"} {
+	for i, v := range []string{"none", "early", "idle", "handshaking", "mixed", "repeat", "handoff", "active", "handoff", "handoff", "handoff", "handoff", "handoff", "handoff", "handoff"} {
 		report = append(report, scenarioShutdown(enc, i, v))
 	}
 	f.Close()
